@@ -202,8 +202,11 @@ NullShdr(im) == ShdrRec(Z, Z, Z, Z, Z, N(IF NSec(im) >= 65280 THEN NSec(im) ELSE
                         N(IF NSeg(im) >= 65535 THEN NSeg(im) ELSE 0), Z, Z)
 FillShdr == ShdrRec(Z, Z, Z, Z, Z, Z, Z, Z, Z, Z)
 StrShdr(im) == ShdrRec(N(NameOff(im, Len(im.secs) + 1)), N(3), Z, Z, N(StrOff(im)), N(Len(StrTab(im))), Z, Z, N(1), Z)
+\* a section may carry an explicit sh_offset ("off"), e.g. a header-only section used for geometry grids
+WithOff(s, v) == [f \in DOMAIN s \cup {"off"} |-> IF f = "off" THEN v ELSE s[f]]
 UserShdr(im, k) == LET s == im.secs[k] IN
-  ShdrRec(N(NameOff(im, k)), s.type, s.flags, s.addr, N(SecOff(im, k)), s.size, s.link, s.info, s.align, s.entsize)
+  ShdrRec(N(NameOff(im, k)), s.type, s.flags, s.addr, IF "off" \in DOMAIN s THEN s.off ELSE N(SecOff(im, k)),
+          s.size, s.link, s.info, s.align, s.entsize)
 
 PhdrRec(g) == [p_type |-> g.type, p_flags |-> g.flags, p_offset |-> g.offset, p_vaddr |-> g.vaddr, p_paddr |-> g.paddr,
                p_filesz |-> g.filesz, p_memsz |-> g.memsz, p_align |-> g.align]
